@@ -60,7 +60,7 @@ def random_rfa_case(rng, exact=True, strategies=ALL, mmax=6, nmax=8, vals=(-2, 0
     n = rng.randint(2, nmax)
     c = {"fn": "rfa", "strategy": s, "x": [R(v) for v in xs], "y": [R(v) for v in ys], "n": n}
     c.update(params(rng, s, n, exact))
-    c["container"] = rng.choice(["array", "array", "list", "int"])
+    c["container"] = rng.choice(["array", "array", "list", "int", "series"])
     if exact and rng.random() < 0.12:          # every optional parameter left at its documented default
         c.update({"a": -1, "alpha": R(1), "beta": R(Fraction(1, 2)), "exp": R(2), "smooth": 1, "defaults": True})
     if rng.random() < 0.15:                    # the factor handed over as a NumPy integer (a float is not a documented type for n)
